@@ -66,7 +66,12 @@ Section Cell.
   Inductive action :=
   | ASet (o : option T)                  (* any writer: route.SetTable(t); None = nil *)
   | ALoad (r : nat)                      (* reader r: t := route.GetTable()  (one atomic Load) *)
-  | ALookup (r : nat) (q : Q) (c : C).   (* reader r: t.Lookup(q) on ITS t *)
+  | ALookup (r : nat) (q : Q) (c : C)    (* reader r: t.Lookup(q) on ITS t *)
+  | ARead (r : nat) (k : N).             (* any other user of route.GetTable(): the admin API's routes
+                                            handler (k = 0; 1 with ?raw), Table.String (2), Table.Dump (3),
+                                            the gRPC pool's hasTarget scan (4), logRoutes (5), the
+                                            tcp-dynamic port scan (6): GetTable() and a function that only
+                                            READS the table - the published table is never written *)
 
   Definition locals := nat -> option T.
   Definition no_locals : locals := fun _ => None.
@@ -81,6 +86,7 @@ Section Cell.
     | ASet o => (set_table cell o, l, None)
     | ALoad r => (cell, set_local l r cell, None)
     | ALookup r q c => (cell, l, Some (r, q, c, match l r with Some t => Some (look t q c) | None => None end))
+    | ARead _ _ => (cell, l, None)
     end.
 
   Fixpoint run_cell (cell : T) (l : locals) (s : list action) : list (nat * Q * C * option R) :=
@@ -109,11 +115,14 @@ Section Cell.
     match a with ALoad r' => Nat.eqb r' r | _ => false end.
   Definition no_load (r : nat) (s : list action) : bool := negb (existsb (is_load_of r) s).
   Definition is_lookup (a : action) : bool := match a with ALookup _ _ _ => true | _ => false end.
+  Definition is_read (a : action) : bool := match a with ARead _ _ => true | _ => false end.
+  (* the schedule without its read-only actions *)
+  Definition without_reads (s : list action) : list action := filter (fun a => negb (is_read a)) s.
   Definition count_lookups (s : list action) : nat := length (filter is_lookup s).
   (* the complete tables that were ever installed *)
   Definition installed (t0 : T) (s : list action) (t : T) : Prop := t = t0 \/ In (ASet (Some t)) s.
 End Cell.
-Arguments ASet {T Q C}. Arguments ALoad {T Q C}. Arguments ALookup {T Q C}.
+Arguments ASet {T Q C}. Arguments ALoad {T Q C}. Arguments ALookup {T Q C}. Arguments ARead {T Q C}.
 
 (* ====================================================================================== *)
 (** * (c) the composed build                                                               *)
@@ -465,6 +474,15 @@ Fixpoint decode_carry_unrepaired (prev : list rawdef) (js : list jdef) : list ra
 (* one poll: decode, NewTableCustom, SetTable *)
 Definition custom_poll (cbuild : list (option def) -> outcome btable) (cell : btable) (js : list jdef)
   : option btable := custom_step cbuild cell (map to_def (decode_fresh js)).
+(* the body of a poll may also be the JSON value null: Decode leaves Routes = nil and
+   NewTableCustom(nil) dereferences it (custom.go:77 -> table.go `range *defs`): the polling
+   goroutine panics, and it has no recover (finding F-C02-10, open) *)
+Definition custom_poll_body (cbuild : list (option def) -> outcome btable) (cell : btable)
+           (body : option (list jdef)) : option btable :=
+  match body with
+  | None => None
+  | Some js => custom_poll cbuild cell js
+  end.
 Definition custom_poll_unrepaired (cbuild : list (option def) -> outcome btable)
            (st : btable * list rawdef) (js : list jdef) : option (btable * list rawdef) :=
   let raws := decode_carry_unrepaired (snd st) js in
